@@ -251,16 +251,57 @@ type vf04Source struct {
 	share      bool
 	sharedSpec *ClientHelloSpec
 	sharedExp  vf04Expect
+	// concrete: the spec carries concrete reserved values (0x2a2a, 0x3a3a, ...) where a fingerprinted spec has the
+	// 0x0a0a placeholder - what an import that copies a captured list verbatim produces (ImportTLSClientHello), or a
+	// hand-written spec; they are GREASE all the same and vary per connection
+	concrete bool
+}
+
+// vf04Concretize replaces every GREASE value of the spec's cipher, group, version and key-share lists by a fixed
+// reserved value other than the placeholder.
+func vf04Concretize(spec *ClientHelloSpec) {
+	const v = 0x2a2a
+	for i, c := range spec.CipherSuites {
+		if vfIsGREASE(c) {
+			spec.CipherSuites[i] = v
+		}
+	}
+	for _, x := range spec.Extensions {
+		switch ext := x.(type) {
+		case *SupportedCurvesExtension:
+			for i, c := range ext.Curves {
+				if vfIsGREASE(uint16(c)) {
+					ext.Curves[i] = CurveID(v)
+				}
+			}
+		case *KeyShareExtension:
+			for i, k := range ext.KeyShares {
+				if vfIsGREASE(uint16(k.Group)) {
+					ext.KeyShares[i].Group = CurveID(v)
+				}
+			}
+		case *SupportedVersionsExtension:
+			for i, c := range ext.Versions {
+				if vfIsGREASE(c) {
+					ext.Versions[i] = v
+				}
+			}
+		}
+	}
 }
 
 func (s *vf04Source) name() string {
 	if s.kind == "randomized" {
 		return "randomized:" + s.id.Client
 	}
-	if s.share {
-		return s.kind + "(one spec object for all connections):" + s.parrot.Name
+	k := s.kind
+	if s.concrete {
+		k += "(concrete reserved values in the spec)"
 	}
-	return s.kind + ":" + s.parrot.Name
+	if s.share {
+		return k + "(one spec object for all connections):" + s.parrot.Name
+	}
+	return k + ":" + s.parrot.Name
 }
 
 func vf04Record(msg []byte) []byte {
@@ -335,6 +376,9 @@ func vf04Hello(s *vf04Source, rnd *vfDetRand, name string) (raw []byte, exp vf04
 			spec, ferr = (&Fingerprinter{}).FingerprintClientHello(vf04Record(cc.HandshakeState.Hello.Raw))
 			if ferr != nil {
 				return nil, exp, "fingerprint-error: " + ferr.Error(), nil
+			}
+			if s.concrete {
+				vf04Concretize(spec)
 			}
 			exp = vf04ExpectOf(spec)
 			if s.share {
@@ -422,7 +466,7 @@ func vf04GenSource(rt *rapid.T) *vf04Source {
 		return &vf04Source{kind: "randomized", id: id}
 	case 1, 2:
 		p := vfGenParrot(rt, "parrot")
-		return &vf04Source{kind: "fingerprinted", parrot: p, id: p.ID, share: rapid.Bool().Draw(rt, "share_spec_object")}
+		return &vf04Source{kind: "fingerprinted", parrot: p, id: p.ID, share: rapid.Bool().Draw(rt, "share_spec_object"), concrete: rapid.IntRange(0, 2).Draw(rt, "concrete_reserved_values") == 0}
 	case 3:
 		p := vfGenParrot(rt, "parrot")
 		return &vf04Source{kind: "json", parrot: p, id: p.ID}
@@ -461,6 +505,7 @@ func TestVerifC04AllParrots(t *testing.T) {
 		vf04RunSource(st, t, &vf04Source{kind: "fingerprinted", parrot: p, id: p.ID}, vf04Conns, uint64(2000+i), true)
 		vf04RunSource(st, t, &vf04Source{kind: "json", parrot: p, id: p.ID}, 8, uint64(3000+i), true)
 		vf04RunSource(st, t, &vf04Source{kind: "fingerprinted", parrot: p, id: p.ID, share: true}, 12, uint64(4000+i), true)
+		vf04RunSource(st, t, &vf04Source{kind: "fingerprinted", parrot: p, id: p.ID, concrete: true}, 16, uint64(5000+i), true)
 	}
 }
 
